@@ -338,44 +338,63 @@ Definition op_advance (dbg : bool) (l : lenc) (row prev : wrow) : res N :=
   let* s := chk_add 64 dbg m (w_op_index row) in
   chk_sub 64 dbg s (w_op_index prev).
 
-(* the line/address part of generate_row: from the line advance (i64) and the operation advance (u64)
-   to the instructions that perform them and emit the row *)
-Definition advance_insns (dbg : bool) (l : lenc) (line_advance : Z) (op_adv : N) : res (list linsn) :=
+(* The line/address part of generate_row, in the order of the source: the debug assertions, the line
+   advance (special opcode candidate or DW_LNS_advance_line), the operation advance (folded into the
+   special opcode, DW_LNS_const_add_pc + special, or DW_LNS_advance_pc), the row-emitting opcode. *)
+
+(* debug_assert!(line_base <= 0); debug_assert!(line_base + line_range as i8 >= 0); *)
+Definition adv_debug_asserts (dbg : bool) (l : lenc) : res unit :=
+  if dbg then
+    if negb (le_line_base l <=? 0)%Z then Panic else
+    let* s := chk_s 8 dbg (le_line_base l + to_i8 (le_line_range l))%Z in
+    if negb (0 <=? s)%Z then Panic else Ok tt
+  else Ok tt.
+
+(* special_default = special_base.wrapping_sub(line_base) *)
+Definition special_default (l : lenc) : N := wrap64 (OPCODE_BASE + two64 - of_i64 (le_line_base l)).
+
+(* `if line_advance != 0 { ... }` : (special, use_special, instructions) *)
+Definition adv_line_stage (dbg : bool) (l : lenc) (line_advance : Z) : res (N * bool * list linsn) :=
   let line_base := of_i64 (le_line_base l) in                       (* i64::from(line_base) as u64 *)
+  if negb (line_advance =? 0)%Z then
+    let special_line := wrap64 (of_i64 line_advance + two64 - line_base) in   (* wrapping_sub *)
+    if special_line <? le_line_range l then
+      let* s := chk_add 64 dbg OPCODE_BASE special_line in Ok (s, true, [])
+    else Ok (special_default l, false, [IAdvanceLine line_advance])
+  else Ok (special_default l, false, []).
+
+(* `if op_advance != 0 { ... }` *)
+Definition adv_op_stage (dbg : bool) (l : lenc) (special : N) (use_special : bool) (op_adv : N)
+  : res (N * bool * list linsn) :=
   let line_range := le_line_range l in
-  let special_base := OPCODE_BASE in
-  let* _ := if dbg then
-              if negb (le_line_base l <=? 0)%Z then Panic else
-              let* s := chk_s 8 dbg (le_line_base l + to_i8 line_range)%Z in
-              if negb (0 <=? s)%Z then Panic else Ok tt
-            else Ok tt in
-  let special_default := wrap64 (special_base + two64 - line_base) in   (* wrapping_sub *)
-  let* (special, use_special, pre) :=
-    if negb (line_advance =? 0)%Z then
-      let special_line := wrap64 (of_i64 line_advance + two64 - line_base) in
-      if special_line <? line_range then
-        let* s := chk_add 64 dbg special_base special_line in Ok (s, true, [])
-      else Ok (special_default, false, [IAdvanceLine line_advance])
-    else Ok (special_default, false, []) in
-  let* (special, use_special, mid) :=
-    if negb (op_adv =? 0) then
-      let* m := chk_mul 64 dbg op_adv line_range in
-      let* t := chk_add 64 dbg special m in
-      let* (special_op_advance, const_add_pc) :=
-        if t <=? 255 then Ok (op_adv, false)
-        else
-          if line_range =? 0 then Panic else
-          let op_range := (255 - special_base) / line_range in
-          let* d := chk_sub 64 dbg op_adv op_range in Ok (d, true) in
-      let* special_op := chk_mul 64 dbg special_op_advance line_range in
-      let* t2 := chk_add 64 dbg special special_op in
-      if t2 <=? 255 then Ok (t2, true, if const_add_pc then [IConstAddPc] else [])
-      else Ok (special, use_special, [IAdvancePc op_adv])
-    else Ok (special, use_special, []) in
-  if use_special && negb (special =? special_default) then
-    if dbg && ((special <? special_base) || (255 <? special)) then Panic    (* debug_assert!s *)
-    else Ok (pre ++ mid ++ [ISpecial (wrap8 special)])                       (* `special as u8` *)
-  else Ok (pre ++ mid ++ [ICopy]).
+  if negb (op_adv =? 0) then
+    let* m := chk_mul 64 dbg op_adv line_range in
+    let* t := chk_add 64 dbg special m in
+    let* (special_op_advance, const_add_pc) :=
+      if t <=? 255 then Ok (op_adv, false)
+      else
+        if line_range =? 0 then Panic else                            (* division by zero *)
+        let op_range := (255 - OPCODE_BASE) / line_range in
+        let* d := chk_sub 64 dbg op_adv op_range in Ok (d, true) in
+    let* special_op := chk_mul 64 dbg special_op_advance line_range in
+    let* t2 := chk_add 64 dbg special special_op in
+    if t2 <=? 255 then Ok (t2, true, if const_add_pc then [IConstAddPc] else [])
+    else Ok (special, use_special, [IAdvancePc op_adv])
+  else Ok (special, use_special, []).
+
+(* `if use_special && special != special_default { Special(special as u8) } else { Copy }` *)
+Definition adv_final (dbg : bool) (l : lenc) (special : N) (use_special : bool) : res (list linsn) :=
+  if use_special && negb (special =? special_default l) then
+    if dbg && ((special <? OPCODE_BASE) || (255 <? special)) then Panic    (* debug_assert!s *)
+    else Ok [ISpecial (wrap8 special)]                                       (* `special as u8` *)
+  else Ok [ICopy].
+
+Definition advance_insns (dbg : bool) (l : lenc) (line_advance : Z) (op_adv : N) : res (list linsn) :=
+  let* _ := adv_debug_asserts dbg l in
+  let* (special, use_special, pre) := adv_line_stage dbg l line_advance in
+  let* (special, use_special, mid) := adv_op_stage dbg l special use_special op_adv in
+  let* fin := adv_final dbg l special use_special in
+  Ok (pre ++ mid ++ fin).
 
 (* the register part of generate_row: instructions and the row with the per-row fields cleared *)
 Definition field_insns (row prev : wrow) : list linsn :=
